@@ -67,9 +67,10 @@ def main():
         shutil.rmtree(scratch, ignore_errors=True)
     out_dir = os.path.join(HERE, "seeded", sid)
     os.makedirs(out_dir, exist_ok=True)
-    shutil.copy(os.path.join(src, "patch.diff"), os.path.join(out_dir, "patch.diff"))
-    shutil.copy(os.path.join(src, "demo.py"), os.path.join(out_dir, "demo.py"))
-    m2 = dict(property=prop, breaks=meta.get("what"), needs=meta.get("needs"), files=meta.get("files"), origin="independent sub-agent given only the property text and a scratch worktree",
+    if os.path.realpath(src) != os.path.realpath(out_dir):
+        shutil.copy(os.path.join(src, "patch.diff"), os.path.join(out_dir, "patch.diff"))
+        shutil.copy(os.path.join(src, "demo.py"), os.path.join(out_dir, "demo.py"))
+    m2 = dict(property=prop, breaks=meta.get("what") or meta.get("breaks"), needs=meta.get("needs"), files=meta.get("files"), origin="independent sub-agent given only the property text and a scratch worktree",
               confirmed_by=["tools/seed_eval.py: patch applies to /repo HEAD copy", f"pytest with change: {rec.get('tests_with_change')}",
                             f"demo.py exit with change = {rec.get('demo_exit_with_change')}, without = {rec.get('demo_exit_without')}"],
               evaluation=rec)
